@@ -424,7 +424,32 @@ class SimWorld(World):
                 self.emit("event", None, path=self.rel(os.path.join(d, "events.log")), line=ln, job=job.name)
 
     def run_real_probe(self, argv, env, rc):
-        return None
+        """C19 real-probe mode: execute the launch for real (synchronously, so that nothing
+        depends on timing) and report what the child process observed and returned."""
+        import subprocess
+
+        if not argv or os.path.basename(argv[0]) != "probe.sh":
+            return None
+        self._probe_n = getattr(self, "_probe_n", 0) + 1
+        out = os.path.join(self.local_root, f"probe-{self._probe_n}.bin")
+        env2 = {k: v for k, v in env.items() if isinstance(v, str)}
+        env2.update(JV_PROBE_OUT=out, JV_PROBE_RC=str(rc))
+        try:
+            p = seams.REAL["Popen"](argv, env=env2, stdout=subprocess.DEVNULL, stderr=subprocess.DEVNULL)
+            real_rc = p.wait()
+            with open(out, "rb") as f:
+                parts = f.read().split(b"\0")
+        except OSError as e:
+            return {"rc": 127, "argv": None, "env": {}, "error": str(e)}
+        i = parts.index(b"--JV-ENV--")
+        args = [x.decode("utf-8", "surrogateescape") for x in parts[:i]]
+        envd = {}
+        for kv in parts[i + 1:]:
+            if b"=" in kv:
+                k, v = kv.split(b"=", 1)
+                envd[k.decode()] = v.decode("utf-8", "surrogateescape")
+        self.probe("real_probe_runs")
+        return {"rc": real_rc, "argv": args, "env": {k: envd.get(k) for k in ("JADE_RUNTIME_OUTPUT", "JADE_JOB_NAME")}}
 
     # ------------------------------------------------------------------ stats (C20)
     def stat_sample(self, vp, group, name):
